@@ -192,11 +192,19 @@ def install(ex, db, w_holder):
     ex.model(r'(tokio|zksync_concurrency)::sync::watch::Sender::<.*>::send', watch_send)
 
     # ---- engine manager
+    def ctx_error(e2, label):
+        """ctx::Error returned by a failing engine call: Canceled or Internal, decided only if the caller looks"""
+        try:
+            t = Mk(db, 'zksync_consensus_bft').ty(r'zksync_concurrency::ctx::Error')
+        except Unmodelled:
+            return Opaque('ctx::Error')
+        return M.LazyEnum(e2, t, ['Internal', 'Canceled'], label + '_error_kind')
+
     def set_state(e, n, a):
         snap = backup_snapshot(e, a[2]); w = W()
         def respond(e2):
             if e2.choose(2, 'set_state_fails') == 0:
-                w.log.append(('persist_failed',)); return ready(err(Opaque('ctx::Error')))
+                w.log.append(('persist_failed',)); return ready(err(ctx_error(e2, 'set_state')))
             w.log.append(('persist', snap)); return ready(ok(UNIT))
         return EnvFuture('set_state', respond)
     ex.model_path('zksync_consensus_engine::manager::EngineManager::set_state', set_state)
@@ -207,7 +215,7 @@ def install(ex, db, w_holder):
             def respond(e2):
                 c = e2.choose(2, kind + '_fails')
                 if c == 0:
-                    w.log.append(('env_fail', kind)); return ready(err(Opaque('ctx::Error')))
+                    w.log.append(('env_fail', kind)); return ready(err(ctx_error(e2, kind)))
                 if log: w.log.append((kind, a[2] if len(a) > 2 else None))
                 return ready(ok(okval))
             return EnvFuture(kind, respond)
